@@ -1,6 +1,6 @@
 From Coq Require Import ZArith List Bool Reals Lra.
 From Flocq Require Import Core BinarySingleNaN.
-Require Import GV.FloatBase GV.FloatLemmas GV.AngleM GV.AngleProofs GV.GeonumM GV.GeonumProofs GV.CollM GV.ShiftProofs.
+Require Import GV.FloatBase GV.FloatLemmas GV.AngleM GV.AngleProofs GV.GeonumM GV.GeonumProofs GV.CollM GV.ShiftProofs GV.ShiftResults.
 Open Scope Z_scope.
 Require Import GV.Properties.C08.
 Check C08_sub_shift : forall a b a' b',
@@ -24,3 +24,16 @@ Check C08_result_blades : forall a b n m,
   rem (geometric_add (shift4 n a) (shift4 m b)) = rem (geometric_add a b) /\
   blade (geometric_add (shift4 n a) (shift4 m b)) = blade (geometric_add a b) + 4 * (n + m).
 Print Assumptions C08_result_blades.
+Check C08_result_values : forall (L : libm) a b n m,
+  gmul_vv (gshift4 m a) (gshift4 n b) = gshift4 (m + n) (gmul_vv a b) /\
+  wedge L (gshift4 m a) (gshift4 n b) = gshift4 (m + n) (wedge L a b) /\
+  meet L (gshift4 m a) (gshift4 n b) = gshift4 (m + n) (meet L a b) /\
+  gdual (gshift4 m a) = gshift4 m (gdual a) /\
+  grotate (gshift4 m a) (shift4 n (ang b)) = gshift4 (m + n) (grotate a (ang b)).
+Print Assumptions C08_result_values.
+Check C08_project_result : forall (L : libm) a b n m, flt (fabs (mag b)) EPSILON = false ->
+  gproject L (gshift4 m a) (gshift4 n b) = gshift4 n (gproject L a b).
+Print Assumptions C08_project_result.
+Check C08_shift_def : forall n a g, shift4 n a = {| rem := rem a; blade := blade a + 4 * n |} /\
+  gshift4 n g = {| mag := mag g; ang := shift4 n (ang g) |}.
+Print Assumptions C08_shift_def.
